@@ -155,6 +155,8 @@ def census(fn: ast.FunctionDef, fold: Folder, helper_sites: dict[str, list[dict]
 
 
 # Pairing of reader and writer sites.  (function, ordinal) ; a stream = applicability, alternatives read, alternatives written.
+# Ordinals count the sites of the NORMALISED function (c11_norm: a local that names `self.lump_layout['K']` is replaced by the
+# table entry, so every pack/unpack through it is a site whether or not the look-up was hoisted).
 # Every alternative of a stream must have the same layout (concatenation of its sites' formats).
 ALL = '*'
 NONVIT = '!VITAMIN'
@@ -165,13 +167,13 @@ STREAMS: list[tuple[str, str, list[list[tuple[str, int]]], list[list[tuple[str, 
     ('vertexes', ALL, [[('_lmp_read_vertexes', 0)]], [[('_lmp_write_vertexes', 0)]]),
     ('edges', ALL, [[('_lmp_read_surfedges', 0)]], [[('_lmp_write_surfedges', 1)]]),
     ('surfedges', ALL, [[('_lmp_read_surfedges', 1)]], [[('_lmp_write_surfedges', 0)]]),
-    ('primverts', ALL, [[('_lmp_read_primitives', 0)]], [[('_lmp_write_primitives', 1)]]),
+    ('primverts', ALL, [[('_lmp_read_primitives', 0)]], [[('_lmp_write_primitives', 0)]]),
     ('primindices', ALL, [[('_lmp_read_primitives', 1)]], [[('_lmp_write_primitives', 2)]]),
-    ('primitives', ALL, [[('_lmp_read_primitives', 2)]], [[('_lmp_write_primitives', 0)]]),
+    ('primitives', ALL, [[('_lmp_read_primitives', 2)]], [[('_lmp_write_primitives', 1)]]),
     ('faceids', ALL, [[('_read_faces_common', 0)]], [[('_write_faces_common', 2)]]),
     ('faces', NONVIT, [[('_read_faces_common', 1)]], [[('_write_faces_common', 1)]]),
     ('faces_vitamin', VIT, [[('_read_faces_common', 1)]], [[('_write_faces_common', 0)]]),
-    ('brushsides', NONVIT, [[('_lmp_read_brushes', 1)]], [[('_lmp_write_brushes', 1)]]),
+    ('brushsides', NONVIT, [[('_lmp_read_brushes', 1)]], [[('_lmp_write_brushes', 2)]]),
     ('brushsides_vitamin', VIT, [[('_lmp_read_brushes', 0)]], [[('_lmp_write_brushes', 1)]]),
     ('brushes', ALL, [[('_lmp_read_brushes', 2)]], [[('_lmp_write_brushes', 0)]]),
     ('leafwaterdata', ALL, [[('_lmp_read_water_leaf_info', 0)]], [[('_lmp_write_water_leaf_info', 0)]]),
@@ -521,7 +523,7 @@ def packed_exprs(fn: ast.FunctionDef, call: ast.Call) -> list[str]:
 # ------------------------------------------------------------------------------------------------ main
 def translate() -> tuple[str, dict]:
     from translate import c11_norm
-    tree = c11_norm.struct_constants(ast.parse(src_text('bsp.py')))
+    tree = c11_norm.functions(c11_norm.struct_constants(ast.parse(src_text('bsp.py'))), None, consts=False, aliases='table-entries')
     consts: dict[str, Any] = {}
     for n in tree.body:
         if isinstance(n, ast.Assign) and len(n.targets) == 1 and isinstance(n.targets[0], ast.Name) \
